@@ -16,7 +16,7 @@
 -/
 import AITB.Props.C03Refs
 
-namespace AITB.POMDP
+namespace AITB.POMDP3
 open AITB.MDP
 
 structure AState where
@@ -247,4 +247,4 @@ theorem initial_sound (m : POMDP) (hv : Valid m) (hS : 0 < m.S) (horizonB horizo
   · rintro b u ⟨rfl, rfl⟩
     exact ⟨hb0, Hop_le_basicVal m hv _ hV _ hQ b hb0⟩
 
-end AITB.POMDP
+end AITB.POMDP3
